@@ -333,12 +333,19 @@ Definition check_project_box (x : list Q) (lo up : hbound) (obs : list Q) : bool
   qcl_eqb (q_project_box (qvec x) (hb lo) (hb up)) (qvec obs).
 
 (* --- CGLS: iterates x_0 .. x_K (observed by running with maxit = 0..K, tol = 0) --- *)
-Fixpoint check_iterates (step : q_cg_state -> q_cg_state) (tol : Q) (st : q_cg_state) (obs : list (list Q)) : bool :=
+(* Float CG loses orthogonality: the deviation of the float iterates from the exact ones grows by a factor
+   ~cond^(3/4) per iteration (observed 4e-16, 1e-13, 8e-11, 2e-6 on a cond 2e4 problem).  Iterates 0..2 -- which
+   already exercise every formula of the recurrences, including beta -- are compared tightly (`base`); later ones only
+   grossly (1e-3); the end result is checked by the solve cases through the exact optimality certificate. *)
+Definition iter_tol (base : Q) (j : nat) : Q := if Nat.leb j 2 then base else (1 # 1000).
+Fixpoint check_iterates_from (j : nat) (step : q_cg_state -> q_cg_state) (base : Q) (st : q_cg_state) (obs : list (list Q)) : bool :=
   match obs with
   | [] => true
-  | o :: rest => qcl_close tol (qvec o) (cg_x Qc st) &&
-                 match rest with [] => true | _ => check_iterates step tol (step st) rest end
+  | o :: rest => qcl_close (iter_tol base j) (qvec o) (cg_x Qc st) &&
+                 match rest with [] => true | _ => check_iterates_from (S j) step base (step st) rest end
   end.
+Definition check_iterates (step : q_cg_state -> q_cg_state) (base : Q) (st : q_cg_state) (obs : list (list Q)) : bool :=
+  check_iterates_from 0 step base st obs.
 
 Definition check_cgls_iters (n : nat) (A : list (list Q)) (b x0 : list Q) (shift : Q) (obs : list (list Q)) : bool :=
   let Am := qmat A in
@@ -359,14 +366,21 @@ Definition cg_margin (tol gamma0 : Qc) (st : q_cg_state) : bool :=
   q_close tol6 (this g) (this thr) && Qle_bool (Qabs (this g - this thr)) ((1 # 1000000) * Qabs (this thr))
   || (let nx := (qnormsq (cg_x Qc st) * (tol * tol))%Qc in Qle_bool (Qabs (this nx - 1)) (1 # 1000000)).
 
-(* run to the stopping rule: same iteration count, same point (1e-9), and -- when the residual
-   clause fired (`cert`) -- the observed point satisfies the shifted normal equations to
-   tol * |s_0| (checked exactly on the observed rationals, independent of the recurrences) *)
+(* run to the stopping rule.  The observed point must satisfy the optimality certificate whenever the float run
+   stopped by its residual clause (`cert`): the shifted normal equations hold to tol * |s_0| on the observed rationals
+   (`certok`, evaluated exactly and independently of the recurrences).  In addition the run is compared with the
+   exact-arithmetic run of the model: same iteration count and the same point up to what the tolerance of the solve
+   leaves open (max(1e-6, 1000 tol)); the counts may differ only when the stopping comparison is within 1e-6 of
+   equality (cg_margin), or by ONE iteration between two runs that both converged (float CG near convergence:
+   loss of orthogonality) provided the certificate holds on the observed point. *)
+Definition qmaxq (a b : Q) : Q := if Qle_bool a b then b else a.
+Definition nat_absdiff (a b : nat) : nat := (a - b) + (b - a).
 Definition check_cg_result (res : list Qc * nat) (iter : nat -> q_cg_state) (tol gamma0 : Qc)
-           (obs_x : list Q) (obs_k : nat) : bool :=
+           (obs_x : list Q) (obs_k : nat) (cert certok : bool) (maxit : nat) : bool :=
   let '(mx, mk) := res in
-  if Nat.eqb mk obs_k then qcl_close tol6 (qvec obs_x) mx
-  else cg_margin tol gamma0 (iter (Nat.min mk obs_k)).
+  if Nat.eqb mk obs_k then qcl_close (qmaxq tol6 ((1000 # 1) * this tol)) (qvec obs_x) mx
+  else if cg_margin tol gamma0 (iter (Nat.min mk obs_k)) then true
+  else cert && certok && Nat.ltb mk maxit && Nat.leb (nat_absdiff mk obs_k) 1.
 
 Definition check_cgls_solve (n : nat) (A : list (list Q)) (b x0 : list Q) (shift : Q) (maxit : nat) (tol : Q)
            (obs_x : list Q) (obs_k : nat) (cert : bool) : bool :=
@@ -374,11 +388,11 @@ Definition check_cgls_solve (n : nat) (A : list (list Q)) (b x0 : list Q) (shift
   let fwd := qmatvec Am in let adj := qmattvec n Am in
   let st0 := q_cgls_init fwd adj (qvec b) (qc shift) (qvec x0) in
   let g0 := cg_gamma Qc st0 in
+  let certok := qc_leb (qnormsq (ne_residual n Am (qvec b) (qc shift) (qvec obs_x))) (g0 * qcsq (qc tol * slack))%Qc in
   check_cg_result (q_cgls_solve fwd adj (qvec b) (qc shift) (qvec x0) maxit (qc tol))
                   (fun k => cgls_iter Qc 0%Qc Qcplus Qcmult Qcminus Qcdiv qc_leb qc_eps fwd adj (qc shift) k st0)
-                  (qc tol) g0 obs_x obs_k
-  && (negb cert ||
-      qc_leb (qnormsq (ne_residual n Am (qvec b) (qc shift) (qvec obs_x))) (g0 * qcsq (qc tol * slack))%Qc).
+                  (qc tol) g0 obs_x obs_k cert certok maxit
+  && (negb cert || certok).
 
 (* --- PCGLS: P and its exact inverse are supplied; the model checks P * Pinv = I first --- *)
 Definition is_inverse (n : nat) (P Pinv : list (list Qc)) : bool :=
@@ -400,22 +414,27 @@ Definition check_pcgls_solve (n : nat) (A : list (list Q)) (b x0 : list Q) (P Pi
   let pinv := qmatvec Pi in let pinvT := qmattvec n Pi in
   let st0 := q_pcgls_init fwd adj (qvec b) pinvT (qvec x0) in
   let g0 := cg_gamma Qc st0 in
+  (* preconditioned normal equations  P^-T A^T (b - A x) ; the shift does not enter (faithful) *)
+  let certok := qc_leb (qnormsq (pinvT (qmattvec n Am (qvsub (qvec b) (qmatvec Am (qvec obs_x)))))) (g0 * qcsq (qc tol * slack))%Qc in
   is_inverse n (qmat P) Pi &&
   check_cg_result (q_pcgls_solve fwd adj (qvec b) pinv pinvT (qc shift) (qvec x0) maxit (qc tol))
                   (fun k => pcgls_iter Qc 0%Qc Qcplus Qcmult Qcminus Qcdiv qc_leb qc_eps fwd adj pinv pinvT k st0)
-                  (qc tol) g0 obs_x obs_k
-  && (negb cert ||
-      (* preconditioned normal equations  P^-T A^T (b - A x) ; the shift does not enter (faithful) *)
-      qc_leb (qnormsq (pinvT (qmattvec n Am (qvsub (qvec b) (qmatvec Am (qvec obs_x)))))) (g0 * qcsq (qc tol * slack))%Qc).
+                  (qc tol) g0 obs_x obs_k cert certok maxit
+  && (negb cert || certok).
 
 (* --- FISTA / ISTA: (x, k) returned for maxit = 1..K --- *)
 Definition check_fista_runs (n : nat) (A : list (list Q)) (b x0 : list Q) (pk : proxk) (t abstol : Q) (adaptive : bool)
            (obs : list (nat * (list Q * nat))) : bool :=
   let Am := qmat A in
   let fwd := qmatvec Am in let adj := qmattvec n Am in
+  (* the float run may meet `|x_new - x_old| <= abstol` by rounding (e.g. x_new == x_old exactly with abstol = 0) one or
+     more iterations before exact arithmetic does: the observed (x, k) must match the exact run with abstol or with
+     abstol + 1e-9 *)
   forallb (fun o => let '(maxit, (ox, ok)) := o in
-                    let '(mx, mk) := q_fista_solve fwd adj (qvec b) (q_prox pk) (qc t) (qc abstol) adaptive (qvec x0) maxit in
-                    Nat.eqb mk ok && qcl_close tol9 (qvec ox) mx) obs.
+                    let agrees (a : Q) :=
+                      let '(mx, mk) := q_fista_solve fwd adj (qvec b) (q_prox pk) (qc t) (qc a) adaptive (qvec x0) maxit in
+                      Nat.eqb mk ok && qcl_close tol9 (qvec ox) mx in
+                    if agrees abstol then true else agrees (abstol + (1 # 1000000000))) obs.
 
 (* optimality certificate of a converged run: the observed point is an (almost) fixed point of the
    model's proximal-gradient map, |T(x) - x| <= bound, evaluated exactly *)
